@@ -25,7 +25,9 @@ ASSUMPTIONS = [
     "NotImplementedError when building the graph is a refusal",
 ]
 
-EXCLUDE = ("KF-minmax-empty", "KF-layout-drift-over-shuffle")
+from vf import exclusions as _ex
+
+EXCLUDE = _ex.RAISES
 
 
 def check_array(x, tag):
